@@ -77,7 +77,7 @@ impl Runner<'_, '_> {
             self.out.line(&format!("dump {c} {idl} => {d}"));
         }
         if let Some(r) = self.sut.raw_dump() {
-            self.out.line(&format!("rawdump => {r}"));
+            self.out.line(&format!("rawdump => {}", if r.is_empty() { "empty" } else { &r }));
         }
     }
 
